@@ -132,9 +132,13 @@ def run(ctx) -> None:
     from ..cfg import DataFlow
 
     df = DataFlow(assign.node)
+    # the key being assigned: the name that subscripts the dict in the stores
+    keyvars = {t.slice.id for _, _, t in stores if isinstance(t, ast.Subscript) and isinstance(t.slice, ast.Name)}
+    ctx.require(len(keyvars) == 1, f"set._assign: stores use several key variables {sorted(keyvars)}")
+    keyvar = next(iter(keyvars))
     for idx, tup in appends.items():
         sl = df.backward_slice(idx, tup.elts[1])
-        keyok = "key" in sl.visited
+        keyok = keyvar in sl.visited
         ctx.check(keyok and "path" in sl.params, "R-UNDO-OLDVALUE",
                   f"{assign.qualname}:record-path {tup.elts[0].value}", assign.loc(tup),
                   "recorded path = inherited path + the key being assigned",
@@ -159,7 +163,7 @@ def run(ctx) -> None:
     bound = {p: a for p, a in zip(params[1:], rc.args)}
     bound.update({k.arg: k.value for k in rc.keywords if k.arg})
     good = (isinstance(bound.get("d"), ast.Subscript) and dotted(bound["d"].value) == dparam
-            and isinstance(bound["d"].slice, ast.Name) and bound["d"].slice.id == "key"
+            and isinstance(bound["d"].slice, ast.Name) and bound["d"].slice.id == keyvar
             and isinstance(bound.get("path"), ast.Name) and bound["path"].id == "path"
             and ast.unparse(bound.get("keys")) == "keys[1:]")
     ctx.check(good, "R-UNDO-OLDVALUE", f"{assign.qualname}:recursion", assign.loc(rc),
